@@ -188,6 +188,9 @@ def main(chk, replay=None):
         dict(fns={1: dict(explicit=False, stmts=[], const=1, **noexc), 2: dict(explicit=False, stmts=[["call", 1, 0, "i", False, False, False, False, Z]], const=2, **noexc),
                   3: dict(explicit=False, stmts=[["call", 2, 0, "i", False, True, False, False, Z]], const=3, **noexc),
                   4: dict(explicit=False, stmts=[["call", 3, 0, "i", False, False, True, False, Z]], const=4, **noexc)}),
+        # ... and the nested call under prevention carries force_local()
+        dict(fns={1: dict(explicit=False, stmts=[], const=1, **noexc), 2: dict(explicit=False, stmts=[["call", 1, 0, "i", 2, False, True, False, Z]], const=2, **noexc),
+                  3: dict(explicit=False, stmts=[["call", 2, 0, "i", 0, True, True, False, Z], ["batch", 2, [1], "i", 2, True, False, False, Z]], const=3, **noexc)}),
     ]
     for i in range(n + len(directed)):
         simple = rng.random() < 0.5
